@@ -789,3 +789,95 @@ def with_tail_delegate(cls, name: str):
         x.fn = merged
     _INLINED[key] = merged
     return merged
+
+
+_SPAWN = ("asyncio.Task", "asyncio.create_task", "asyncio.ensure_future")
+
+
+def _spawns(node) -> bool:
+    return any(isinstance(c, ast.Call) and (norm.raw(c.func) in _SPAWN or (isinstance(c.func, ast.Attribute) and c.func.attr in ("create_task", "ensure_future"))) for c in ast.walk(node))
+
+
+def with_spawn_helpers(cls, name: str):
+    """FunctionInfo of method `name` with its *spawn helpers* inlined: a statement `await self._helper(<args>)` whose callee is a private
+    coroutine method of the same class that creates a task and returns no value (`_run_shielded(coro)`: wrap the coroutine in a Task, keep it
+    referenced, await it through asyncio.shield) is replaced by `<param> = <arg>` assignments followed by the helper's body.  Rules about how
+    a method spawns, shields and feeds its tasks then see through an `extract method` refactor.  The original tree is not modified; positions
+    of the call's own nodes are kept, so a node of the original can be found again in the result (`same_node`)."""
+    import copy
+    fn = cls.methods[name]
+    key = (id(fn.node), name, "spawn")
+    if key in _INLINED:
+        return _INLINED[key]
+
+    def helper_of(st):
+        if not (isinstance(st, ast.Expr) and isinstance(st.value, ast.Await) and isinstance(st.value.value, ast.Call)):
+            return None
+        v = st.value.value
+        if not (isinstance(v.func, ast.Attribute) and norm.raw(v.func.value) == "self" and v.func.attr.startswith("_") and v.func.attr in cls.methods and v.func.attr != name):
+            return None
+        h = cls.methods[v.func.attr]
+        params = [a.arg for a in h.node.args.args[1:]]
+        if not isinstance(h.node, ast.AsyncFunctionDef) or h.node.args.vararg or h.node.args.kwarg or h.node.args.kwonlyargs or v.keywords or len(v.args) != len(params):
+            return None
+        if any(isinstance(r, ast.Return) and r.value is not None for r in ast.walk(h.node)) or not _spawns(h.node):
+            return None
+        return h, params, v
+
+    if not any(helper_of(st) for st in ast.walk(fn.node) if isinstance(st, ast.Expr)):
+        _INLINED[key] = fn
+        return fn
+    node = copy.deepcopy(fn.node)
+    changed = True
+    while changed:
+        changed = False
+        for parent in ast.walk(node):
+            for field, value in ast.iter_fields(parent):
+                if not isinstance(value, list):
+                    continue
+                for i, st in enumerate(value):
+                    hp = helper_of(st) if isinstance(st, ast.AST) else None
+                    if hp is None:
+                        continue
+                    h, params, v = hp
+                    body = copy.deepcopy(h.node.body)
+                    if body and isinstance(body[0], ast.Expr) and isinstance(body[0].value, ast.Constant) and isinstance(body[0].value.value, str):
+                        body = body[1:]
+                    binds = []
+                    for p_, a_ in zip(params, v.args):
+                        b_ = ast.Assign(targets=[ast.Name(id=p_, ctx=ast.Store())], value=a_, type_comment=None)
+                        ast.copy_location(b_, st)
+                        ast.copy_location(b_.targets[0], st)
+                        binds.append(b_)
+                    value[i:i + 1] = binds + body
+                    changed = True
+                    break
+                if changed:
+                    break
+            if changed:
+                break
+
+    def setp(n, par, field=None):
+        n.parent = par
+        n.pfield = field
+        n.mod = getattr(fn.node, "mod", None)
+        n.fn = None
+        for f_, v_ in ast.iter_fields(n):
+            for ch in (v_ if isinstance(v_, list) else [v_]):
+                if isinstance(ch, ast.AST):
+                    setp(ch, n, f_)
+
+    setp(node, getattr(fn.node, "parent", None))
+    merged = FunctionInfo(fn.module, node, fn.qualname, fn.cls, fn.outer)
+    for x in ast.walk(node):
+        x.fn = merged
+    _INLINED[key] = merged
+    return merged
+
+
+def same_node(fn, orig):
+    """The node of (inlined) function `fn` that stands for node `orig` of the original tree: same type, position and text."""
+    for x in ast.walk(fn.node):
+        if type(x) is type(orig) and getattr(x, "lineno", None) == getattr(orig, "lineno", None) and getattr(x, "col_offset", None) == getattr(orig, "col_offset", None) and norm.raw(x) == norm.raw(orig):
+            return x
+    return orig
